@@ -7,7 +7,7 @@
    file; that a file opened "wb" and handed to the child receives what the child writes; thread
    scheduling fairness of ThreadPoolExecutor; json.dump / json.load. *)
 From Coq Require Import List NArith Bool.
-From Conductor Require Import Model.Tee Proofs.TeeProofs.
+From Conductor Require Import Model.Tee Proofs.TeeProofs Gen.Generated Proofs.GenTieTee.
 Import ListNotations.
 Open Scope N_scope.
 
@@ -90,3 +90,19 @@ Example C10_nonvacuous :
   tdone (snd r) = true /\ tfile (snd r) = [] /\
   record_rule [1; 2] (@nil N) 0 = (true, false) /\ record_rule [1; 2] [3] 7 = (true, true).
 Proof. vm_compute. repeat split; reflexivity. Qed.
+
+(* Ties to the source, re-checked on every run: the effects of the model's finish_execution, in order,
+   are the ones TRANSLATED from RunTaskExecutable.finish_execution in the working tree (1 args.json,
+   2 options.json, 3 raise TaskNonZeroExit, 4 insert the row, 5 commit) -- moving the record files
+   behind the exit-status test again (D26) breaks this equality -- and the record type is chosen as in
+   start_execution (0 NotRecorded, 1 Teed, 2 OnlyLogged) *)
+Theorem C10_finish_is_the_sources : forall rc ser ae oe hv,
+  map effect_code (finish_execution rc ser ae oe hv) = gen_finish (negb (rc =? 0)) ser ae oe hv.
+Proof. exact finish_tie. Qed.
+Print Assumptions C10_finish_is_the_sources.
+
+Theorem C10_record_type_is_the_sources : forall record_output (slot : option N),
+  rt_code' (record_type_of record_output slot) =
+  gen_record_type record_output (match slot with None => true | Some _ => false end).
+Proof. exact record_type_tie. Qed.
+Print Assumptions C10_record_type_is_the_sources.
